@@ -77,7 +77,9 @@ def gen_update(rnd, kind):
     else:
         attrs.append(('as_path', W.as_path(asns, asn4)))
     if not asn4 and rnd.random() < (0.8 if (has_confed or has_lead_set) else 0.5) and asns and not has_set:  # AS4_PATH consistent with AS_PATH (RFC 6793 4.2.2)
-        n4 = rnd.randint(0, len(asns))
+        # (with a confederation segment in front also MORE numbers than the sequence holds: RFC 5065 5.3 does not count
+        # the confederation members, so such an AS4_PATH is longer than the AS_PATH and is ignored)
+        n4 = rnd.randint(0, len(asns) + (2 if has_confed else 0))
         a4 = [rnd.choice([4200000001, 65002, 131072]) for _ in range(n4)]
         if a4:
             attrs.append(('as4_path', W.as4_path(a4)))
